@@ -70,6 +70,7 @@ struct Ctx {
 template<int VT, class F> int observe_fut(F &f) {
     try { if constexpr (VT == 1) { f.value(); return 0; } else if constexpr (VT == 0 || VT == 3) return f.value(); else return f.value().val(); }
     catch (const val::TestExc &e) { return 1000 + e.id; }
+    catch (const val::PlainExc &e) { return 1000 + e.id; }
     catch (const cocls::await_canceled_exception &) { return -1; }
     catch (const cocls::value_not_ready_exception &) { return -2; }
 }
@@ -139,6 +140,7 @@ cocls::async<void> launch_from_coro(Ctx *c, int k) {
         }
     }
     catch (const val::TestExc &e) { got = 1000 + e.id; }
+    catch (const val::PlainExc &e) { got = 1000 + e.id; }
     catch (const cocls::await_canceled_exception &) { got = -1; }
     if (mode != M_START_PROMISE_SESSION) c->received[k] = got;
 }
@@ -154,7 +156,7 @@ R node(Ctx *c, int k, Guard arg, std::shared_ptr<void> keep) {
     uint8_t comp = c->p->n[(size_t)k].comp;
     if (comp == C_SUSPEND_SAME || comp == C_SUSPEND_OTHER) { co_await *c->gate[(size_t)k]; }
     c->body_done[k]++;
-    if (comp == C_THROW) throw val::TestExc(k);
+    if (comp == C_THROW) { if (k & 1) throw val::PlainExc{k}; throw val::TestExc(k); }        // (odd positions: a type not derived from std::exception)
     if (comp == C_RESULT_CTOR_THROWS) {
         // the exception leaves the construction of the RESULT inside the bound party: it is delivered like one thrown by the body
         if constexpr (VT == 2) co_return val::Poison{k}; else throw val::TestExc(k);
@@ -213,6 +215,7 @@ void run_t(const Prog &p) {
             }
         }
         catch (const val::TestExc &e) { got = 1000 + e.id; }
+    catch (const val::PlainExc &e) { got = 1000 + e.id; }
         catch (const cocls::await_canceled_exception &) { got = -1; }
         if (p.n[0].mode != M_START_PROMISE_SESSION) c.received[0] = got;       // (session mode: written by the callback, possibly on another thread)
         if (resolver.joinable()) resolver.join();
